@@ -87,6 +87,9 @@ void COSyncRx(CO_SYNC *sync, CO_IF_FRM *frm)
     int16_t n;
 
     for (i = 0; i < CO_RPDO_N; i++) {
+        if (sync->RPdo[i] == 0) {
+            continue;
+        }
         if (sync->RPdo[i]->Identifier == frm->Identifier) {
             for (n=0; n < 8; n++) {
                 sync->RFrm[i].Data[n] = frm->Data[n];
